@@ -1236,6 +1236,9 @@ class SSHClientProcess(SSHProcess[AnyStr], SSHClientStreamSession[AnyStr]):
         else:
             self._recv_buf[datatype] = []
 
+        self._recv_buf_len -= sum(len(cast(AnyStr, data)) for data in recv_buf)
+        self._maybe_resume_reading()
+
         buf = cast(AnyStr, '' if self._encoding else b'')
         return buf.join(cast(Iterable[AnyStr], recv_buf))
 
